@@ -459,7 +459,13 @@ class Array(metaclass=MetaArray):
             shape = cls._shape
         if not cls._is_static_type:
             items = np.prod(shape)
-            self._offsets = Int64._array_from_buffer(buffer, coffset, items)
+            offsets = Int64._array_from_buffer(buffer, coffset, items)
+            if len(shape) > 1:  # table is stored in memory order
+                order = mk_order(cls._order, shape)
+                offsets = offsets.reshape(
+                    [shape[io] for io in order]
+                ).transpose(np.argsort(order))
+            self._offsets = offsets
         return self
 
     @classmethod
@@ -483,8 +489,13 @@ class Array(metaclass=MetaArray):
             )
             coffset += 8 * len(header)
         if not cls._is_static_type:
-            Int64._array_to_buffer(buffer, coffset, info.offsets)
-            coffset += 8 * len(info.offsets)
+            # table of offsets is stored in memory order like the items
+            Int64._array_to_buffer(
+                buffer,
+                coffset,
+                np.ascontiguousarray(info.offsets.transpose(info.order)),
+            )
+            coffset += 8 * info.offsets.size
         if hasattr(cls._itemtype, "_dtype") and hasattr(
             value, "dtype"
         ):  # is a scalar type:
